@@ -99,6 +99,7 @@ func encodeHistory(h history) []byte {
 	if h.Init.HostVia {
 		b[1] |= 2
 	}
+	b[1] |= byte(h.Init.Shape) << 2
 	b[2] = byte(len(h.Ops))
 	for i, o := range h.Ops {
 		b[4+3*i], b[5+3*i], b[6+3*i] = byte(o.K), byte(o.X), byte(o.A)
@@ -115,6 +116,7 @@ func decodeHistory(b []byte) history {
 	}
 	h.Init.NoCache = b[1]&1 != 0
 	h.Init.HostVia = b[1]&2 != 0
+	h.Init.Shape = int(b[1] >> 2)
 	for i := 0; i < int(b[2]); i++ {
 		h.Ops = append(h.Ops, op{K: opKind(b[4+3*i]), X: int(b[5+3*i]), A: int(b[6+3*i])})
 	}
@@ -425,6 +427,16 @@ func (e *explorer) explore() {
 			if m == "HG" {
 				layer = append(layer, history{Init: initial{Mods: m, NoCache: nc, HostVia: true}})
 			}
+			if m == "TR" {
+				// every module shape of the importer is an initial state of its own
+				n := nQuickShapes
+				if e.cfg.Full {
+					n = nShapes
+				}
+				for sh := 1; sh < n; sh++ {
+					layer = append(layer, history{Init: initial{Mods: m, NoCache: nc, Shape: sh}})
+				}
+			}
 		}
 	}
 	for depth := 0; depth <= e.cfg.Depth; depth++ {
@@ -567,7 +579,7 @@ func (e *explorer) explore() {
 // name the content of A.tab[0]; verdicts always come from the comparison with the twin.
 func calibrate() {
 	for k := 0; k < nFailKinds; k++ {
-		w := newWorld(false, 1, false, [nMods]bool{true}, 0, false)
+		w := newWorld(false, 1, false, [nMods]bool{true}, 0, false, 0)
 		if r := w.do(op{K: kInst, X: mA}); r != "ok" {
 			fw.Fatalf("calibration: instantiate A: %s", r)
 		}
